@@ -28,6 +28,9 @@ type isoCase struct {
 	PermSeed uint64      `json:"perm_seed"`
 	Route    string      `json:"route"`               // lib | net | makeiso | synth
 	RootName string      `json:"root_name,omitempty"` // name of the directory the image is made of (volume name in plain mode)
+	// Chunk > 0 (routes lib and net): after the sequential read the files are read a second time through the same open
+	// image the way a reader of the volume does it - piece by piece, the files taking turns
+	Chunk int `json:"chunk,omitempty"`
 }
 
 func (c isoCase) rootName() string {
@@ -186,8 +189,65 @@ func genC07(t *rapid.T) isoCase {
 		c.TitleID = genTitleID(t)
 	}
 	c.RootName = genRootName(t)
+	if c.Route != "makeiso" {
+		c.Chunk = rapid.SampledFrom([]int{0, 0, 1, 700, 2048, 3000, 65536}).Draw(t, "chunk")
+	}
 	return c
 }
+
+// interleavedPass reads every file of the volume in pieces of chunk bytes through readAt, the files taking turns (one
+// piece of each per round), and compares each piece with the same range of img (which compareTree ties to the source).
+func interleavedPass(vol *isoread.Vol, img []byte, chunk int, readAt func(off int64, n int) ([]byte, error), st *hx.Stats) error {
+	type cursor struct{ start, pos, end int64 }
+	var cs []*cursor
+	for _, f := range vol.Primary.Files {
+		for _, e := range f.Extents {
+			if e.Len > 0 {
+				s := int64(e.LBA) * 2048
+				cs = append(cs, &cursor{s, s, s + int64(e.Len)})
+			}
+		}
+	}
+	if len(cs) > 64 {
+		cs = cs[:64]
+	}
+	if len(cs) >= 2 {
+		st.Label("files read piece by piece, taking turns")
+	}
+	pieces := 0
+	for live := true; live && pieces < 4096; {
+		live = false
+		for _, c := range cs {
+			if c.pos >= c.end {
+				continue
+			}
+			live = true
+			n := int64(chunk)
+			if n > c.end-c.pos {
+				n = c.end - c.pos
+			}
+			if c.pos+n > int64(len(img)) {
+				return nil
+			}
+			b, err := readAt(c.pos, int(n))
+			if ie, ok := err.(infraErr); ok {
+				return ie.error
+			}
+			if err != nil {
+				return hx.Failf("iso-file-bytes", "file at image offset %d read in pieces of %d (files taking turns): piece at +%d failed: %v", c.start, chunk, c.pos-c.start, err)
+			}
+			if !bytes.Equal(b, img[c.pos:c.pos+n]) {
+				return hx.Failf("iso-file-bytes", "file at image offset %d read in pieces of %d (files taking turns): the piece at +%d differs from the same bytes read sequentially", c.start, chunk, c.pos-c.start)
+			}
+			c.pos += n
+			pieces++
+		}
+	}
+	return nil
+}
+
+// infraErr marks an error of the harness's own transport (never judged as a violation)
+type infraErr struct{ error }
 
 type decoded struct {
 	vol       *isoread.Vol
@@ -248,6 +308,16 @@ func buildAndDecode(c isoCase, st *hx.Stats) (*decoded, error) {
 		}
 		if perr != nil {
 			v.Problems = append(v.Problems, isoread.Problem{Clause: "image-parse", Msg: perr.Error()})
+		}
+		if c.Chunk > 0 {
+			if err := interleavedPass(v, img, c.Chunk, func(off int64, n int) ([]byte, error) {
+				b := make([]byte, n)
+				_, err := io.ReadFull(io.NewSectionReader(viso, off, int64(n)), b)
+				return b, err
+			}, st); err != nil {
+				fx.Close()
+				return nil, err
+			}
 		}
 		return &decoded{vol: v, size: int64(len(img)), announced: s.Size(), cleanup: fx.Close, img: img}, nil
 	case "net":
@@ -310,6 +380,21 @@ func buildAndDecode(c isoCase, st *hx.Stats) (*decoded, error) {
 		}
 		if perr != nil {
 			v.Problems = append(v.Problems, isoread.Problem{Clause: "image-parse", Msg: perr.Error()})
+		}
+		if c.Chunk > 0 {
+			if err := interleavedPass(v, img, c.Chunk, func(off int64, n int) ([]byte, error) {
+				if err := conn.Send(hx.Req{Op: "READ_CRIT", N: uint32(n), Off: uint64(off)}.Encode()); err != nil {
+					return nil, infraErr{err}
+				}
+				b, closed, err := conn.ReadN(n)
+				if err == nil && closed {
+					err = fmt.Errorf("connection ended after %d of %d bytes", len(b), n)
+				}
+				return b, err
+			}, st); err != nil {
+				fx.Close()
+				return nil, err
+			}
 		}
 		return &decoded{vol: v, size: int64(len(img)), announced: size, cleanup: fx.Close}, nil
 	case "makeiso":
